@@ -1297,10 +1297,14 @@ PINNED_NAMES = ROLE_FNS + ("xs::store::Store::new", "xs::store::Store::append", 
 
 
 class Crate:
-    def __init__(self, path, local_prefix):
+    def __init__(self, path, local_prefix, renames=None):
         with open(path) as fh:
             text = fh.read()
         text = text.replace("crate::", local_prefix + "::")
+        for (actual, expected) in (renames or []):
+            # an item the rules know by its path was moved to another module (`mod gc;` split out of store/mod.rs): it is given its
+            # old name back everywhere (definitions, call sites, closures below it), so that every rule reads the tree as before
+            text = text.replace(actual, expected)
         j = json.loads(text)
         self.name = local_prefix
         self.j = j
@@ -1330,12 +1334,71 @@ class Facts:
         self.lib = Crate(os.path.join(d, "xs-lib.json"), "xs")
         self.bin = Crate(os.path.join(d, "xs-bin.json"), "xsbin")
         self.crates = [self.lib, self.bin]
+        self.renames = self._moved_items()
+        if self.renames:
+            self.lib = Crate(os.path.join(d, "xs-lib.json"), "xs", self.renames)
+            self.bin = Crate(os.path.join(d, "xs-bin.json"), "xsbin", self.renames)
+            self.crates = [self.lib, self.bin]
         self.lib.siblings = self.crates
         self.bin.siblings = self.crates
         from . import inline
         self.inlined = []
         if splice:
             self.inlined = inline.apply(self, _AnchorSet(), PINNED_NAMES)
+
+    def _moved_items(self):
+        """[(actual path, path the rules use)] for free functions and types the rules name that are not where they used to be, when
+        exactly one item of that name exists elsewhere in the same crate (a module split or merge).  Methods keep their type's path
+        wherever the impl block lives, so only free functions and the types themselves can move."""
+        from . import inline
+        import re
+        out = []
+        have_fn, have_adt = {}, {}
+        for c in self.crates:
+            for b in c.body_list:
+                if b.kind == "Fn":
+                    have_fn.setdefault(b.def_.split("::")[-1], []).append(b.def_)
+            for a in c.adts:
+                have_adt.setdefault(a.split("::")[-1], []).append(a)
+        known_fn = {b.def_ for c in self.crates for b in c.body_list}        # every body, methods and closures included
+        known_adt = {d for ds in have_adt.values() for d in ds}
+        methods_owner = set()
+        for c in self.crates:
+            for b in c.body_list:
+                if b.kind == "AssocFn":
+                    methods_owner.add(b.def_.rsplit("::", 1)[0])
+        for n in sorted(inline._names_used_by_rules() | set(PINNED_NAMES) | set(ROLE_FNS)):
+            if not re.fullmatch(r"xs(?:bin)?(::[A-Za-z_][A-Za-z0-9_]*)+", n):
+                continue
+            if n in known_fn or n in known_adt or n in methods_owner:
+                continue
+            if any(d.startswith(n + "::") for d in known_fn) or any(d.startswith(n + "::") for d in known_adt):
+                continue            # a module path
+            parent = n.rsplit("::", 1)[0]
+            if parent in known_adt or parent in methods_owner or parent.split("::")[-1][:1].isupper():
+                continue            # a method of a type (it keeps the type's path wherever its impl block lives): not a moved item
+            last = n.split("::")[-1]
+            root = n.split("::")[0]
+            cands = [d for d in have_fn.get(last, []) + have_adt.get(last, []) if d.split("::")[0] == root]
+            if len(cands) == 1 and cands[0] != n and not any(a == cands[0] for (a, e) in out):
+                out.append((cands[0], n))
+        # the other items of a module some named item was moved out into travel with it (rules also look items up by prefix,
+        # e.g. every `xs::api::handle_*`): `xs::api::handlers::handle_version` -> `xs::api::handle_version`, unless that name is taken
+        mods = {}
+        for (a, e) in out:
+            mods.setdefault(a.rsplit("::", 1)[0], set()).add(e.rsplit("::", 1)[0])
+        for ma, mes in mods.items():
+            if len(mes) != 1:
+                continue
+            me = next(iter(mes))
+            for d in sorted(known_fn | known_adt):
+                if d.rsplit("::", 1)[0] == ma and "{" not in d and not any(a == d for (a, e) in out):
+                    tgt = me + "::" + d.split("::")[-1]
+                    if tgt not in known_fn and tgt not in known_adt:
+                        out.append((d, tgt))
+        # longest first, so that `a::b::f` is not rewritten through a rename of `a::b`
+        out.sort(key=lambda x: -len(x[0]))
+        return out
 
     def all_bodies(self):
         for c in self.crates:
